@@ -3,5 +3,6 @@ import GraphSlam.Props.C03.EdgeSum
 import GraphSlam.Props.C03.Invariants
 import GraphSlam.Props.C03.Fill
 import GraphSlam.Props.C03.Assembled
+import GraphSlam.Props.E2E.Step
 
 /-! C03 — umbrella. -/
